@@ -35,9 +35,13 @@ def to_text(v: V, st: SchemaType, problems: List[str]) -> str:
         return v.value
     if not isinstance(v, StrV):
         raise EmitError(f"representation is not a string expression: {v.key()[:80]}")
-    out = []
+    out: List[str] = []
+    absorb_paren = False
     for p in v.pieces:
         if isinstance(p, str):
+            if absorb_paren and p.startswith(")"):
+                p = p[1:]           # the `)` that closed float(
+            absorb_paren = False
             out.append(p)
             continue
         x, conv = p
@@ -54,6 +58,15 @@ def to_text(v: V, st: SchemaType, problems: List[str]) -> str:
             if conv != "r" and (x.kind not in REPR_NEUTRAL):
                 problems.append(f"prop `{prop}` (kind {x.kind}) is printed with str() instead of repr()")
             out.append(f"__P_{prop}__")
+            continue
+        # float(repr(str(X))) for a float payload X: `float('inf')` - an expression whose value is X (non-finite floats
+        # have no literal); the surrounding "float(" ... ")" text is absorbed into the placeholder
+        if isinstance(x, StrV) and conv == "r" and len(x.pieces) == 1 and not isinstance(x.pieces[0], str) \
+                and isinstance(x.pieces[0][0], Sym) and x.pieces[0][0].origin and x.pieces[0][0].origin[0] == "prop" \
+                and x.pieces[0][0].kind == "float" and out and out[-1].endswith("float("):
+            out[-1] = out[-1][:-len("float(")]
+            out.append(f"__P_{x.pieces[0][0].origin[1]}__")
+            absorb_paren = True
             continue
         if isinstance(x, Sym) and x.origin and x.origin[0] == "accept":
             out.append(f"__M_{_ident(x.origin[1].key())}__")
@@ -137,6 +150,9 @@ def check(run: Run, prog: Program, model: Model, tier: str) -> None:
     n_states = 0
     pure_bad: Dict[str, Tuple[str, Set[str]]] = {}
     pure_ok: Set[str] = set()
+    float_bad: Set[str] = set()
+    float_ok: Set[str] = set()
+    rep_loc = model.visitors["Representor"].loc
     for st in sorted(model.concrete_builtin_schemas(), key=lambda s: s.name):
         if st.name in ("TypeAliasSchema",):
             continue
@@ -160,6 +176,17 @@ def check(run: Run, prog: Program, model: Model, tier: str) -> None:
                 continue
             for p in paths:
                 _check_emission(run, prog, model, st, ta, cfg, p, construct, f.loc)
+            # FLOAT-LITERAL: repr() of a float is a Python expression only when the float is finite (`inf`, `-inf` and `nan`
+            # are bare names): a float payload emitted with !r must be on a path that tested its finiteness
+            if st.name == "FloatSchema":
+                for p in paths:
+                    for e in p.events:
+                        if e.kind == "format" and e.data.get("conv") == "r":
+                            v_ = e.data.get("value")
+                            if isinstance(v_, Sym) and v_.origin and v_.origin[0] == "prop" and v_.kind == "float":
+                                pk = v_.key()
+                                tested = any(("isfinite" in fk or "isinf" in fk or "isnan" in fk) and pk in fk for fk, _, _ in p.facts)
+                                (float_ok if tested else float_bad).add(f"Representor.{hook}: {pk}")
             # REPR-PURE: the text is a function of the schema and the indent only - nothing is remembered on the schema,
             # the visitor or the module between two renderings (a remembered text is replayed at another depth / for
             # another flavour: "same repr", "nesting level not altered")
@@ -183,6 +210,12 @@ def check(run: Run, prog: Program, model: Model, tier: str) -> None:
                 pure_bad.setdefault(key_pure, (f.loc, set()))[1].update(impure)
             else:
                 pure_ok.add(key_pure)
+    for k_ in sorted(float_bad):
+        run.violated("FLOAT-LITERAL", k_ + " is emitted as a Python expression", rep_loc, "the float is printed with !r on a path that never tested "
+                     "whether it is finite: repr(float('inf')) is `inf`, which is not an expression over the allowed names",
+                     witness="eval(repr(schema.float(float('inf')))) raises NameError (also .min(float('-inf')), .max(float('inf')))")
+    for k_ in sorted(float_ok - float_bad):
+        run.holds("FLOAT-LITERAL", k_ + " is emitted as a Python expression", rep_loc, "printed with !r only after a finiteness test", nontrivial=True)
     for k_, (loc_, msgs) in sorted(pure_bad.items()):
         run.violated("REPR-PURE", k_, loc_, "; ".join(sorted(msgs))[:300],
                      witness="the same container rendered on its own and then inside a parent is printed at the wrong depth: repr(eval(repr(s))) != repr(s)")
@@ -450,6 +483,11 @@ def _container_payload(st: SchemaType, args: List[ast.expr], vals: Dict[str, V],
 
 R = "d42/representation/_representor.py"
 MUTANTS = [
+    {"name": "float max printed with !r again (fix 86cdc4e reverted at one site)", "rule": "FLOAT-LITERAL",
+     "edits": [("d42/representation/_representor.py", "            r += f\".max({self._repr_float(schema.props.max)})\"", "            r += f\".max({schema.props.max!r})\"")]},
+    {"name": "neutral: finiteness tested with isinf/isnan instead of isfinite", "expect": "SILENT",
+     "edits": [("d42/representation/_representor.py", "        if isfinite(value):\n            return repr(value)\n", "        if not (isinf(value) or isnan(value)):\n            return repr(value)\n"),
+               ("d42/representation/_representor.py", "from math import isfinite\n", "from math import isinf, isnan\n")]},
     {"name": "container text memoised on the schema instance by a decorator (seeded C06-L)", "rule": "REPR-PURE",
      "edits": [("d42/representation/_representor.py", "class Representor(", "def _memoized(visit: Any) -> Any:\n    def wrapper(self: Any, schema: Any, *, indent: int = 0, **kwargs: Any) -> str:\n        memo = schema.__dict__.get(\"_memo\")\n        if memo is not None:\n            return cast(str, memo)\n        text = visit(self, schema, indent=indent, **kwargs)\n        schema.__dict__[\"_memo\"] = text\n        return cast(str, text)\n    return wrapper\n\n\nclass Representor("),
                ("d42/representation/_representor.py", "    def visit_list(self, schema: ListSchema", "    @_memoized\n    def visit_list(self, schema: ListSchema")]},
@@ -489,8 +527,8 @@ MUTANTS = [
     {"name": "bool value printed after the type with a method-style call", "rule": "EMIT-REPLAY",
      "edits": [(R, "        r = f\"{self._name}.bool\"\n\n        if schema.props.value is not Nil:\n            r += f\"({schema.props.value!r})\"", "        r = f\"{self._name}.bool\"\n\n        if schema.props.value is not Nil:\n            r += f\".value({schema.props.value!r})\"")]},
     {"name": "neutral: float precision emitted before min/max", "expect": "SILENT",
-     "edits": [(R, "        if schema.props.min is not Nil:\n            r += f\".min({schema.props.min!r})\"\n\n        if schema.props.max is not Nil:\n            r += f\".max({schema.props.max!r})\"\n\n        if schema.props.precision is not Nil:\n            r += f\".precision({schema.props.precision!r})\"\n",
-                "        if schema.props.precision is not Nil:\n            r += f\".precision({schema.props.precision!r})\"\n\n        if schema.props.min is not Nil:\n            r += f\".min({schema.props.min!r})\"\n\n        if schema.props.max is not Nil:\n            r += f\".max({schema.props.max!r})\"\n")]},
+     "edits": [(R, "        if schema.props.min is not Nil:\n            r += f\".min({self._repr_float(schema.props.min)})\"\n\n        if schema.props.max is not Nil:\n            r += f\".max({self._repr_float(schema.props.max)})\"\n\n        if schema.props.precision is not Nil:\n            r += f\".precision({schema.props.precision!r})\"\n",
+                "        if schema.props.precision is not Nil:\n            r += f\".precision({schema.props.precision!r})\"\n\n        if schema.props.min is not Nil:\n            r += f\".min({self._repr_float(schema.props.min)})\"\n\n        if schema.props.max is not Nil:\n            r += f\".max({self._repr_float(schema.props.max)})\"\n")]},
     {"name": "neutral: repr() call instead of !r", "expect": "SILENT",
      "edits": [(R, "            r += f\".contains({schema.props.substr!r})\"", "            r += \".contains(\" + repr(schema.props.substr) + \")\"")]},
     {"name": "neutral: contains printed before alphabet", "expect": "SILENT",
